@@ -52,6 +52,7 @@ CLASSES = [
     'no-separator',
     'separator-at-last-position',
     'wrong-version',
+    'consistent-wrong-version',
     'len-47',
     'len-49',
     'len-0',
@@ -77,7 +78,8 @@ NSUB = {
     'zero-in-first-8-ps': 8,
     'no-separator': 2,
     'separator-at-last-position': 1,
-    'wrong-version': 9,
+    'wrong-version': 14,
+    'consistent-wrong-version': 14,
     'len-47': 1,
     'len-49': 1,
     'len-0': 1,
@@ -124,9 +126,13 @@ def _good_pm(rng, cv):
     return bytes(cv) + _rand(rng, 46)
 
 
+# every premaster version value (3,0)..(3,5) and a few outside; the two acceptable ones
+# (ClientHello.client_version and the negotiated version) are removed per handshake
+VERSION_SWEEP = [(3, 0), (3, 1), (3, 2), (3, 3), (3, 4), (3, 5), (2, 0), (4, 0), (0, 0), (3, 255), (2, 255)]
+
+
 def wrong_versions(cv, nv):
-    cand = [(3, 4), (2, 0), (0, 0), (cv[1], cv[0]), (3, 0), (3, 1), (3, 2), (3, 3), (0xff, 0xff),
-            (cv[0], cv[1] ^ 0x80), (cv[0] ^ 1, cv[1])]
+    cand = VERSION_SWEEP + [(cv[1], cv[0]), (0xff, 0xff), (cv[0], cv[1] ^ 0x80), (cv[0] ^ 1, cv[1])]
     out = []
     for v in cand:
         if v != tuple(cv) and v != tuple(nv) and v not in out:
@@ -255,6 +261,11 @@ def VARIANTS(quick):
     V.append(_variant((3, 3), 'aes128', 'sha', etm=False, ems=True))
     # ClientHello.client_version (3,3) but (3,2) negotiated: the premaster may carry either
     V.append(_variant((3, 2), 'aes128', 'sha', client_max=(3, 3)))
+    # gaps of two and three between the advertised and the negotiated version (a premaster version strictly
+    # in between must be treated like any other wrong version); SSLv3 only without EMS (see below)
+    V.append(_variant((3, 1), 'aes128', 'sha', client_max=(3, 3)))
+    V.append(_variant((3, 0), 'aes128', 'sha', etm=True, ems=False, client_max=(3, 3)))
+    V.append(_variant((3, 0), 'aes128', 'sha', etm=True, ems=False, client_max=(3, 2)))
     if quick:
         return V
     seen = set((v['name'], v['version']) for v in V)
@@ -281,7 +292,9 @@ def VARIANTS(quick):
         for ems in (True, False):
             add(_variant((3, 3), cipher, 'aead', True, ems))
     for neg, cmax in [((3, 1), (3, 3)), ((3, 1), (3, 2)), ((3, 2), (3, 3))]:
-        add(_variant(neg, 'aes128', 'sha', client_max=cmax))
+        for etm, ems in [(True, True), (False, False)]:
+            add(_variant(neg, 'aes128', 'sha', etm, ems, client_max=cmax))
+    add(_variant((3, 0), 'aes128', 'sha', etm=True, ems=False, client_max=(3, 1)))
     # SSLv3 negotiated by a server capped at (3,0) with a client offering up to TLS1.2: only without
     # extended master secret.  Observed on the unchanged tree: with useExtendedMasterSecret=True on both
     # sides the server agrees to EMS in SSLv3 and then BOTH endpoints die with a bare AssertionError in
@@ -360,10 +373,31 @@ def _step(gen, sock, budget):
             return None
 
 
-def run_handshake(variant, replacement=None, make_replacement=None, max_steps=200000):
+def run_handshake(variant, replacement=None, make_replacement=None, max_steps=200000, pm_version_fn=None):
     """One handshake with record-granular delivery client -> server.
     replacement: bytes to put into ClientKeyExchange.encryptedPreMasterSecret, or
-    make_replacement(client_version, negotiated_version) -> bytes; both None = honest client."""
+    make_replacement(client_version, negotiated_version) -> bytes; both None = honest client.
+    pm_version_fn(client_version, negotiated_version) -> (maj, min): a CONSISTENTLY deviating client:
+    it puts these version bytes into its premaster secret, encrypts that correctly and derives its
+    own keys from it (so only the server's version check stands between it and a completed
+    handshake).  Done by wrapping RSAKeyExchange.processServerKeyExchange, a method only the client
+    role ever calls (the server's processClientKeyExchange is untouched)."""
+    if pm_version_fn is not None:
+        import tlslite.keyexchange as _kx
+        orig_psk = _kx.RSAKeyExchange.processServerKeyExchange
+
+        def psk(self, srvPublicKey, serverKeyExchange):
+            pm = orig_psk(self, srvPublicKey, serverKeyExchange)
+            v = pm_version_fn(tuple(self.clientHello.client_version), tuple(self.serverHello.server_version))
+            if v is not None:
+                pm[0], pm[1] = v
+                self.encPremasterSecret = srvPublicKey.encrypt(pm)
+            return pm
+        _kx.RSAKeyExchange.processServerKeyExchange = psk
+        try:
+            return run_handshake(variant, replacement, make_replacement, max_steps)
+        finally:
+            _kx.RSAKeyExchange.processServerKeyExchange = orig_psk
     chain, key = _server_creds()
     ver = tuple(variant['version'])
     cmax = tuple(variant.get('client_max') or ver)
@@ -396,6 +430,7 @@ def run_handshake(variant, replacement=None, make_replacement=None, max_steps=20
             if rep is not None:
                 msg.encryptedPreMasterSecret = bytearray(rep)
                 info['sent_ct_len'] = len(rep)
+            info['sent_ct'] = bytes(msg.encryptedPreMasterSecret)
         return orig_send(msg, *a, **kw)
     pair.client._sendMsg = send
 
@@ -497,9 +532,22 @@ def _run_case(variant, cls, seed, subseed):
         made['desc'] = desc
         made['ct'] = ct
         return ct
+    def pmv(cv, nv):
+        vs = [v for v in VERSION_SWEEP + [(cv[1], cv[0]), (cv[0], cv[1] ^ 0x80), (0xff, 0xff)]
+              if v != tuple(cv) and v != tuple(nv)]
+        v = vs[subseed % len(vs)]
+        made['desc'] = ('client consistently uses a premaster with version bytes %r (client_version %r, negotiated %r)'
+                        % (v, tuple(cv), tuple(nv)))
+        made['pm_version'] = v
+        return v
     det = loop.DetRandom(seed).install()
     try:
-        res = run_handshake(variant, make_replacement=mk)
+        if cls == 'consistent-wrong-version':
+            res = run_handshake(variant, pm_version_fn=pmv)
+            if res['info'].get('sent_ct') is not None:
+                made['ct'] = res['info']['sent_ct']
+        else:
+            res = run_handshake(variant, make_replacement=mk)
     finally:
         det.uninstall()
     return res, made
